@@ -206,6 +206,14 @@ func c10Catalogue(r *Rich, thorough bool) []c10Case {
 	add("init", core.R("", "--json", "init", "a", "b"))
 	add("other", core.R("", "--json", "frobnicate"))
 	add("other", core.R("", "--dir", "/nonexistent-dir-xyz", "--json", "list"))
+	// fields too large for one event line (the log format's 10 MiB line limit): alone and next to good fields
+	huge := strings.Repeat("h", 10*1024*1024+64)
+	add("set-huge", core.R("", "--json", "set", r.ByState["todo"]).In(jsonStr(map[string]interface{}{"body": huge})))
+	add("set-huge", core.R("", "--json", "set", r.ByState["todo"]).In(jsonStr(map[string]interface{}{"title": "renamed", "body": huge, "state": "done"})))
+	add("set-huge", core.R("", "--json", "set", r.ByState["doing"]).In(jsonStr(map[string]interface{}{"title": huge})))
+	add("new-huge", core.R("", "--json", "new", "task").In(jsonStr(map[string]interface{}{"title": "big", "body": huge, "claim": "ag"})))
+	add("new-huge", core.R("", "--json", "new", "epic").In(jsonStr(map[string]interface{}{"title": "big", "body": huge})))
+	add("plan-huge", core.R("", "--json", "plan").In(jsonStr(map[string]interface{}{"title": "P", "tasks": []map[string]interface{}{{"title": "a"}, {"title": "b", "body": huge, "after": []string{"a"}}}})))
 	// lock busy: every mutating command while another descriptor holds the flock
 	busy := []core.Req{
 		core.R("", "--json", "new", "task").In(`{"title":"b1"}`),
@@ -316,6 +324,9 @@ func runC10(env *core.Env) {
 		cyc := rich.Store.WithLog(append(append([]byte{}, rich.Store.Log()...), l.Bytes()...))
 		pres = append(pres, cyc)
 	}
+	// the rich store whose last writer died mid-line: every command that appends first heals the tail (a rewrite), so
+	// failures now happen on the rewrite path
+	pres = append(pres, tornVariants(rich.Store)[0])
 	cat := c10Catalogue(rich, env.Thorough())
 	conf := newConformer(len(cat)*len(pres)/300+1, 320)
 	type job struct {
@@ -423,9 +434,19 @@ func runC10(env *core.Env) {
 		{Name: "sequence-chain||set{state}", Store: cf.SA, Procs: []core.Req{core.R("", "--json", "sequence", cf.T1, cf.T2, cf.T3), core.R("", "--json", "set", cf.T2).In(`{"state":"done"}`)}},
 		{Name: "set{result,state}||prune", Store: cf.SA, Procs: []core.Req{core.R("", "--json", "set", cf.T2).In(`{"result_path":"out.txt","result_summary":"s","state":"done"}`), core.R("", "--json", "prune", "--yes")}},
 	}, func(core.Obs) string { return "" })
+	// failures caused by the environment: EIO injected into every system call on a store file
+	faultCov := failUnchangedPhase(env, "C10", rich.Store, []crashCmd{
+		{"new-task", core.R("", "--json", "new", "task").In(`{"title":"ft","state":"done"}`)},
+		{"set", core.R("", "--json", "set", rich.ByState["todo"]).In(`{"title":"fz","state":"doing","claim":"ag"}`)},
+		{"claim", core.R("", "--json", "claim", "--agent", "ag")},
+		{"sequence", core.R("", "--json", "sequence", rich.ByState["todo"], rich.ByState["canceled"], rich.ByState["error"])},
+		{"prune", core.R("", "--json", "prune", "--yes")},
+		{"plan", core.R("", "--json", "plan").In(`{"title":"P","tasks":[{"title":"a"},{"title":"b","after":["a"]}]}`)},
+		{"compact", core.R("", "--json", "compact")},
+	})
 	env.Finish("model_checking", map[string]interface{}{
-		"concurrent": concCov,
-		"states":     len(pres), "transitions": evals, "traces_validated_against_impl": validated,
+		"concurrent": concCov, "io_error_phase": faultCov,
+		"states": len(pres), "transitions": evals, "traces_validated_against_impl": validated,
 		"evaluations": evals, "distinct_nontrivial": distinct.len(),
 		"rule":       "cross product (command, field subset of {title,body,epic,state,claim,result} up to pairs + mixed triples, every value incl. poisoned ones, 10 targets incl. pruned/unknown ids, 3 input modes; all sequence pairs/triples over 8 ids; plan rejection catalogue; usage errors; every mutating command under a held flock) x pre-states; non-trivial = exits non-zero; distinct = (command family, error class)",
 		"samples":    samples.list,
